@@ -502,6 +502,19 @@ func runHistory(p *prefix, t *tmpl, events []int, states map[string]bool, mu *sy
 			res = fail("panic:"+msg, fmt.Sprint("panic: ", r))
 		}
 	}()
+	hf := false // headers-first history: some header is announced before its data
+	cbs := false // the wallet's UTXO callbacks are installed
+	for _, x := range events {
+		if x <= -100 {
+			hf = true
+		}
+		if x == -4 {
+			cbs = true
+		}
+	}
+	if cbs {
+		e.Shadow()
+	}
 	failedReorg := false // a reorganisation has failed earlier in this history
 	reopened := false    // the chain was closed and reopened earlier in this history
 	var orphans []int
@@ -555,8 +568,9 @@ func runHistory(p *prefix, t *tmpl, events []int, states map[string]bool, mu *sy
 				// The listed finding is exactly this: the fallback takes the heaviest leaf with ties broken by
 				// the order in which the competing children ARRIVED at their fork point. A tied tip that this
 				// rule does not produce is something else and is reported under its own key.
-				// (after a restart the children of a node are in map order, any tied leaf may come out)
-				if pick := arrivalOrderPick(m, m.Nodes[p.tip]); !reopened && pick != nil && pick.Hash != tip {
+				// (after a restart the children of a node are in map order, any tied leaf may come out; with
+				// announced headers the children are in announcement order)
+				if pick := arrivalOrderPick(m, m.Nodes[p.tip]); !reopened && !hf && pick != nil && pick.Hash != tip {
 					return fail("tip-tie-after-failed-reorg-not-by-arrival-order", fmt.Sprintf("after %s: tip is %s; first seen is %s, the arrival-order fallback of the listed finding would give %s", evname, name(tip), name(best[0].Hash), name(pick.Hash)))
 				}
 				return &outcome{key: "tip-tie-not-first-seen-after-failed-reorg", global: true, trace: trace,
@@ -576,27 +590,52 @@ func runHistory(p *prefix, t *tmpl, events []int, states map[string]bool, mu *sy
 			ws, _ := refchain.Dump(want)
 			return fail("utxo-mismatch", fmt.Sprintf("after %s: UTXO set differs from replay of tip\n%s", evname, diff(ws, gs)))
 		}
-		k := fmt.Sprint(t.name, "|", keyOf(delivered), "|", strings.Join(acceptedOrder, ","), "|", fmt.Sprintf("%x", tip[:4]), "|", gh, "|", orphans)
+		if sh := e.ShadowUTXO(); sh != nil {
+			if ss, shh := refchain.Dump(sh); shh != gh {
+				return fail("wallet-notifications-disagree-with-utxo", fmt.Sprintf("after %s: the set kept from NotifyTxAdd/NotifyTxDel differs from the unspent set\n%s", evname, diff(gs, ss)))
+			}
+		}
+		k := fmt.Sprint(t.name, "|", hf, cbs, e.Cached(), "|", keyOf(delivered), "|", strings.Join(acceptedOrder, ","), "|", fmt.Sprintf("%x", tip[:4]), "|", gh, "|", orphans)
 		mu.Lock()
 		states[k] = true
 		mu.Unlock()
 		return nil
 	}
-	offer := func(i int) string {
-		r := e.Deliver(t.blocks[i].Bytes())
+	note := func(i int, evn, r string) {
 		if strings.Contains(r, "MoveToBlock failed") {
 			failedReorg = true
 		}
 		atomic.AddInt64(trans, 1)
-		trace = append(trace, step{Ev: "deliver " + t.names[i], Result: r})
+		trace = append(trace, step{Ev: evn + " " + t.names[i], Result: r})
 		if r == "ok" {
 			okHashes[t.blocks[i].Hash()] = true
 		}
-		if r == "ok" || strings.HasPrefix(r, "refused: accept") {
+		if r == "ok" || (strings.HasPrefix(r, "refused: accept") && !strings.Contains(r, "parent discarded")) {
 			if m.Add(t.blocks[i]) != nil {
 				acceptedOrder = append(acceptedOrder, t.names[i])
 			}
 		}
+	}
+	offer := func(i int) string {
+		if hf {
+			// the client's own route: data of an announced block; blocks held back for a missing
+			// ancestor are committed by the delivery that completes their ancestry
+			r, drained := e.DeliverData(t.blocks[i].Bytes())
+			note(i, "data", r)
+			for _, d := range drained {
+				for k, b := range t.blocks {
+					if b.Hash() == d.Hash {
+						note(k, "  from-cache", d.Result)
+					}
+				}
+			}
+			if r == "cached" {
+				return "ok-cached"
+			}
+			return r
+		}
+		r := e.Deliver(t.blocks[i].Bytes())
+		note(i, "deliver", r)
 		return r
 	}
 	for _, evn := range events {
@@ -633,6 +672,13 @@ func runHistory(p *prefix, t *tmpl, events []int, states map[string]bool, mu *sy
 					}
 				}
 			}
+		case evn <= -100:
+			k := -100 - evn
+			r := e.Announce(t.blocks[k].Bytes()[:80])
+			atomic.AddInt64(trans, 1)
+			trace = append(trace, step{Ev: "header " + t.names[k], Result: r})
+		case evn == -4:
+			// marker: callbacks installed at open
 		case evn == -1:
 			e.Ch.Idle()
 			atomic.AddInt64(trans, 1)
@@ -643,6 +689,9 @@ func runHistory(p *prefix, t *tmpl, events []int, states map[string]bool, mu *sy
 		case evn == -2:
 			e.Close()
 			e = minichain.Open(dir+"/d", &minichain.Opts{Params: params})
+			if cbs {
+				e.Shadow()
+			}
 			reopened = true
 			atomic.AddInt64(trans, 1)
 			trace = append(trace, step{Ev: "close+reopen"})
@@ -832,7 +881,18 @@ func replay(r *ev.Run, p *prefix, ts []*tmpl, file string) {
 		var evs []int
 		for _, n := range rec.Replay.Events {
 			x := -3
+			if strings.HasPrefix(n, "hdr:") {
+				for i, bn := range t.names {
+					if "hdr:"+bn == n {
+						x = -100 - i
+					}
+				}
+				evs = append(evs, x)
+				continue
+			}
 			switch n {
+			case "callbacks":
+				x = -4
 			case "idle":
 				x = -1
 			case "reopen":
@@ -958,6 +1018,15 @@ func main() {
 				}
 			}
 			jobs <- job{t, a}
+			if hfOn(t, r.Thorough()) {
+				// headers-first, as the client works: every header announced (parents first) before any data
+				jobs <- job{t, append(append([]int{-4}, t.hdrOrder()...), a...)}
+				if r.Thorough() {
+					jobs <- job{t, append([]int{-4}, a...)}
+					// headers one step ahead of the data: before a block's data, its own header and its children's
+					jobs <- job{t, t.oneAhead(a)}
+				}
+			}
 			if r.Thorough() || n <= 6 || restricted {
 				// one environment event (idle / close+reopen) at every position
 				for pos := 1; pos <= n; pos++ {
@@ -1001,12 +1070,77 @@ func main() {
 	})
 }
 
+// hdrOrder lists the header announcements of all blocks of the template, parents first.
+func (t *tmpl) hdrOrder() []int {
+	known := map[[32]byte]bool{}
+	for _, b := range t.blocks {
+		known[b.Hash()] = false
+	}
+	var l []int
+	for len(l) < len(t.blocks) {
+		n := len(l)
+		for i, b := range t.blocks {
+			if known[b.Hash()] {
+				continue
+			}
+			if done, inTmpl := known[b.Prev]; !inTmpl || done {
+				known[b.Hash()] = true
+				l = append(l, -100-i)
+			}
+		}
+		if len(l) == n {
+			break
+		}
+	}
+	return l
+}
+
+// oneAhead interleaves announcements with the data order a: before the data of a block its
+// own header (if its parent's header is known by then) and the headers of its children.
+func (t *tmpl) oneAhead(a []int) []int {
+	ann := map[int]bool{}
+	idx := map[[32]byte]int{}
+	for i, b := range t.blocks {
+		idx[b.Hash()] = i
+	}
+	var l []int
+	var announce func(i int)
+	announce = func(i int) {
+		if ann[i] {
+			return
+		}
+		if pi, ok := idx[t.blocks[i].Prev]; ok && !ann[pi] {
+			return // header chain must connect: the node would not get this header yet
+		}
+		ann[i] = true
+		l = append(l, -100-i)
+	}
+	for _, x := range a {
+		announce(x)
+		for i, b := range t.blocks {
+			if b.Prev == t.blocks[x].Hash() && ann[x] {
+				announce(i)
+			}
+		}
+		l = append(l, x)
+	}
+	return l
+}
+
+func hfOn(t *tmpl, thorough bool) bool {
+	return thorough || len(t.blocks) <= 6 || os.Getenv("C06_HF") == "all"
+}
+
 func evNames(t *tmpl, e []int) []string {
 	var l []string
 	for _, x := range e {
 		switch {
 		case x >= 0:
 			l = append(l, t.names[x])
+		case x <= -100:
+			l = append(l, "hdr:"+t.names[-100-x])
+		case x == -4:
+			l = append(l, "callbacks")
 		case x == -1:
 			l = append(l, "idle")
 		default:
